@@ -4,6 +4,7 @@ import json, os
 HERE = os.path.dirname(os.path.dirname(os.path.abspath(__file__)))
 sd = os.path.join(HERE, 'seeded')
 rows = []
+own = []
 for name in sorted(os.listdir(sd)):
     mp = os.path.join(sd, name, 'meta.json')
     if not os.path.exists(mp):
@@ -15,6 +16,7 @@ for name in sorted(os.listdir(sd)):
         first = m['checks'][c].get('first', '')[:120]
         if first:
             break
+    own.append(m['property'] in m.get('caught_by', []))
     rows.append('| %s | %s | %s | %s | %s / %s | %s | `%s` |' % (
         name, m['property'], title.replace('|', '/'), m.get('baseline_with_change', '').replace('baseline: ', ''),
         m['demo_with_change']['exit'], m['demo_without_change']['exit'], ','.join(m.get('caught_by', [])) or '**none**', first))
@@ -24,7 +26,7 @@ head = ('# Changes seeded by independent sub-agents\n\nEach sub-agent saw only t
         '(apply, pinned baseline, demo with/without, quick check with VERIF_REPO pointing at the patched tree).  Seeds named `-w3` are the '
         'third wave (a second pair for ten of the properties).  %d seeds, %d reported by the property\'s own quick check.\n\n'
         '| seed | property | change | suite with change | demo with / without | caught by | first violation signature |\n|---|---|---|---|---|---|---|\n'
-        % (len(rows), sum(1 for r in rows if '**none**' not in r)))
+        % (len(rows), sum(own)))
 missed = open(os.path.join(sd, 'missed.md')).read() if os.path.exists(os.path.join(sd, 'missed.md')) else ''
 open(os.path.join(sd, 'README.md'), 'w').write(head + '\n'.join(rows) + '\n\n' + missed)
 print(len(rows), 'seeds')
